@@ -357,7 +357,11 @@ class EvolvableAlgorithm(ABC, metaclass=RegistryMeta):
         # Exclude attributes that are EvolvableModule or Optimizer objects (also check for nested
         # module-related attributes for multi-agent algorithms)
         exclude = list(agent.evolvable_attributes().keys())
-        exclude += [attr for attr, val in attributes if isinstance(val, TensorDict)]
+        exclude += [
+            attr
+            for attr, val in attributes
+            if isinstance(val, (TensorDict, torch.nn.Module))
+        ]
 
         # Exclude private and built-in attributes
         attributes = [
